@@ -303,6 +303,7 @@ pub struct World<'r, const STEPS: usize> {
     pub forgot: bool,       // some guard was leaked with mem::forget
     pub global: bool,
     pub checked_emits: u8,
+    pub closure_emits: u8, // emissions made from inside a with_local_recorder closure
     // verdicts (accumulated, asserted at the end so that one violation does not hide another)
     pub bad_i: bool,        // I violated: LOCAL pointed to a recorder whose installing borrow had ended
     pub bad_d: bool,        // LOCAL was not the innermost live local recorder
@@ -316,7 +317,7 @@ impl<'r, const STEPS: usize> World<'r, STEPS> {
             recs, prog, class,
             guards: [None, None, None],
             n: 0, live: [false; MAXI], stack: [0; MAXI], sp: 0,
-            out_of_order: false, forgot: false, global: false, checked_emits: 0,
+            out_of_order: false, forgot: false, global: false, checked_emits: 0, closure_emits: 0,
             bad_i: false, bad_d: false, bad_dead: false, bad_delivery: false,
         }
     }
@@ -506,6 +507,9 @@ pub fn exec<const STEPS: usize>(w: &mut World<'_, STEPS>, pc: usize, depth: u8) 
         w.end_guard((op - OP_FORGET0) as usize, true);
     } else if op == OP_EMIT {
         w.emit();
+        if depth > 0 {
+            w.closure_emits += 1;
+        }
     } else if op == OP_GLOBAL && !w.global {
         assert!(crate::set_global_recorder(GRec).is_ok());
         w.global = true;
@@ -548,6 +552,7 @@ pub fn run_program<const STEPS: usize>(class: u8, prog: [u8; STEPS]) {
     }
     kani::cover!(w.checked_emits >= 2);
     kani::cover!(w.n == 3 && w.checked_emits >= 1);
+    kani::cover!(w.closure_emits >= 1 && w.sp == 0); // a closure was opened, emitted in, and left
     let (bad_i, bad_d, bad_dead, bad_delivery) = (w.bad_i, w.bad_d, w.bad_dead, w.bad_delivery);
     set_local(None);
     assert!(!bad_dead, "an emission was dispatched to a recorder after the borrow that installed it had ended");
